@@ -113,7 +113,9 @@ sysctl_str_to_buf(int *mib, uint32_t mib_cnt, const char *descr, size_t descr_si
 	rc = snprintf(path, sizeof(path), "/proc/sys/%s/%s", l1, l2);
 	if (IS_SNPRINTF_FAIL(rc, sizeof(path)))
 		return (ENOSPC);
-	error = read_file_buf(path, (size_t)rc, (buf + descr_size), tm, &tm);
+	if (2 > tm) /* No space for value and zero at the end. */
+		return (ENOSPC);
+	error = read_file_buf(path, (size_t)rc, (buf + descr_size), (tm - 1), &tm);
 	if (0 != error)
 		return (error);
 #endif /* Linux specific code. */
